@@ -4,7 +4,7 @@ import json, os, shutil, sys
 name, prop, src, caught, needs = sys.argv[1:6]
 d = os.path.join("/verif/seeded", name)
 os.makedirs(d, exist_ok=True)
-for f in os.listdir(src):
+for f in ([] if os.path.realpath(src) == os.path.realpath(d) else os.listdir(src)):
     if os.path.isfile(os.path.join(src, f)) and os.path.getsize(os.path.join(src, f)) < 200000 and not f.endswith((".o",)) and "." in f:
         shutil.copy(os.path.join(src, f), d)
 log = open("/tmp/sc/%s.check.log" % name).read() if os.path.exists("/tmp/sc/%s.check.log" % name) else ""
